@@ -141,9 +141,12 @@ class C14(runner.Check):
     kinds = sorted(rng.sample(PERTURB, rng.choice([2, 3, 4, 6])))
     # edge seeds on purpose: 0 is falsy, 2**31-1 / 2**32-1 are range limits
     seed = rng.randrange(1, 10**6) if rng.random() < 0.8 else rng.choice([0, 0, 0, 1, 2**31 - 1])
+    # A fresh interpreter with another PYTHONHASHSEED is the only way to perturb set /
+    # dict-of-str iteration order; eagle and NSGA-II (per-parameter loops) get it more often.
     plan = {'designer': name, 'seed': seed, 'perturb': kinds,
             'epoch': simclock.EPOCH + rng.randrange(10**6),
-            'fresh_process': rng.random() < 0.08}
+            'fresh_process': rng.random() < (0.14 if name in ('eagle', 'nsga2') else 0.04),
+            'hashseed': rng.choice([1, 9, 4242, 123456])}
     if rng.random() < 0.3 and name != 'sgrid':
       plan.update(kind='benchmark', dim=rng.choice([2, 3]), function=rng.choice(['Sphere', 'BuecheRastrigin', 'DifferentPowers', 'StepEllipsoidal', 'Schwefel']),
                   protocol=rng.choice(['generate_and_evaluate', 'suggest_then_partial']),
@@ -152,6 +155,8 @@ class C14(runner.Check):
         plan['repeats'] = 3
     else:
       n = rng.choice([2, 4, 6, 10]) if name != 'cmaes' else rng.choice([2, 4])
+      if name == 'eagle' and plan['fresh_process']:
+        n = rng.choice([6, 10, 14])  # long enough for the pool to fill and flies to be mutated
       plan.update(kind='designer', space=rng.choice([s for s in twin.SPACES[name] if s != 'small']),
                   batches=[rng.choice([1, 2, 3, 5]) for _ in range(n)],
                   infeasible_mod=rng.choice([0, 0, 4]) if name != 'nsga2' else 0,
@@ -197,7 +202,7 @@ class C14(runner.Check):
         res.violate('fresh-process-run-failed', f'{name}: child interpreter failed', sig=sig)
       elif child != json.loads(json.dumps(x)):
         step = next((i for i, (a, b) in enumerate(zip(x, child)) if json.loads(json.dumps(a)) != b), 0)
-        res.violate('fresh-process-run-differs', f'{name} seed={plan["seed"]}: first difference at item {step} (PYTHONHASHSEED=4242, fresh interpreter)', sig=sig)
+        res.violate('fresh-process-run-differs', f'{name} seed={plan["seed"]}: first difference at item {step} (PYTHONHASHSEED={plan.get("hashseed", 4242)}, fresh interpreter)', sig=sig)
     res.log.append([plan['designer'], plan.get('kind'), plan['perturb'], x])
     res.evaluation((name, plan.get('kind'), tuple(plan['perturb']), len(x), plan.get('fresh_process')),
                    len(plan['perturb']) + (1 if plan.get('fresh_process') else 0) >= 2)
@@ -213,7 +218,7 @@ class C14(runner.Check):
         json.dump(plan, f)
       env = dict(os.environ)
       env.pop('_VERIF_PINNED', None)
-      env['VERIF_HASHSEED'] = '4242'
+      env['VERIF_HASHSEED'] = str(plan.get('hashseed', 4242))
       p = subprocess.run([sys.executable, os.path.join(boot.VERIF_ROOT, 'vcheck'), 'c14-child', path],
                          capture_output=True, text=True, env=env, timeout=300)
       for line in p.stdout.splitlines():
